@@ -239,6 +239,8 @@ def install(M):
     def mat_setitem(I, m, idx, value):
         if not (isinstance(idx, tuple) and len(idx) == 2 and all(is_intlike(x) for x in idx)):
             raise Unsupported(f"ndarray store index {idx!r}")
+        if hasattr(value, "present_value"):
+            value = value.present_value(I)
         if isinstance(value, SMat):
             # A-NP1: a size-1 array stored into a cell denotes its element
             I.raise_if(z3.Or(to_int(value.rows()) != 1, to_int(value.cols()) != 1), "ValueError")
